@@ -21,8 +21,14 @@ def c16(tier):
     sized = [{"n": n, "pattern": p} for n in sizes for p in ("distinct", "same", "alternate", "objsub", "mod7")]
     recs = run_harness(binary, "names", {"batches": batches, "sized": sized})
     seenb, seenz = set(), set()
+    conc = 0
     for x in recs:
         ck.evaluations += 1
+        if "concurrent" in x:
+            conc += x["concurrent"]
+            for b in x.get("bad") or []:
+                ck.violation("a name is mapped differently when other mapping calls are in flight: " + b[:400], {"calls": x["concurrent"]})
+            continue
         if "batch" in x:
             seenb.add(x["batch"])
             cid = {"batch_shape": batches[x["batch"]]}
@@ -43,10 +49,13 @@ def c16(tier):
             ck.sample(dict(cid, lookups=x["lookups"], ids_looked_up=x["ids_looked_up"], distinct_names=x.get("distinct_names")))
     if len(seenb) != len(batches) or len(seenz) != len(sized):
         raise Inconclusive("not every batch was replayed")
+    if conc == 0:
+        raise Inconclusive("the concurrent mapping calls did not run")
+    ck.extra["concurrent_mapping_calls"] = conc
     ck.extra["batch_shapes"] = len(batches)
     ck.extra["sized_batches"] = len(sized)
     ck.rule = ("every batch shape of NameMap.tla up to %d relationships over three symbols (repeats, same name as object and subject, subject id vs subject set) instantiated with "
                "eleven classes of adversarial strings (among them different spellings of one UUID, and a name together with the text of the id derived for it); batches of 1..250 (thorough: 1000) relationships in five repetition patterns; Mapper round trip position by position, "
-               "determinism/injectivity of the id mapping, write + REST/gRPC read-back, lookup statements <= 100 ids; non-trivial: at least two relationships" % maxlen)
+               "determinism/injectivity of the id mapping, write + REST/gRPC read-back, lookup statements <= 100 ids; 8000 mapping calls from 16 goroutines on the shared mappers must map like the same calls made alone; non-trivial: at least two relationships" % maxlen)
     ck.assumptions = ["sqlite only", "UUIDv5 collisions are assumed away"]
     ck.finish()
